@@ -1,10 +1,11 @@
 import DilithiumVerif.Props.C02
+import DilithiumVerif.Lemmas.VerifyTotal
 /-
   C08 — Verification is total on untrusted bytes; no operation panics or overflows.
   The model has the semantics of the overflow-checked build: `.ok b` means "returned b without any panic,
   overflow or out-of-bounds access".  Part 1: the gates that make `verify` answer `false` (never a fault) before
-  any arithmetic is done.  The range analysis of the arithmetic path (unpack ranges → NTT bounds → reduce → …)
-  is not finished (`verify_total` is future work): partial.
+  any arithmetic is done.  Part 2: `verify_total` — the range analysis of the whole arithmetic path (decoder ranges → NTT
+  bounds → Montgomery products → reductions → UseHint → w1Encode → hashes), for arbitrary signature bytes.
 -/
 namespace DV.C08
 open DV
@@ -36,5 +37,39 @@ theorem nonce_budget : ∀ p ∈ allParams, ∀ κ : Nat, κ < 65535 / p.l → (
   rcases hp with rfl | rfl | rfl | rfl | rfl | rfl <;>
     (simp only [P_lvl2, P_lvl3, P_lvl5, P_mldsa44, P_mldsa65, P_mldsa87, Gen.lvl2.L, Gen.lvl3.L, Gen.lvl5.L,
       Gen.ml_dsa_44.L, Gen.ml_dsa_65.L, Gen.ml_dsa_87.L] at hk ⊢; omega)
+
+/-! ## Part 2: totality on arbitrary bytes -/
+
+open DV.Complete DV.SamplerTotal in
+/-- **Verification is total on untrusted bytes.** For each of the six parameter sets, every public key of
+    PUBLICKEYBYTES bytes (any byte values), every message and every list of bytes of ANY length offered as a signature,
+    `verify` returns a boolean: on no path is there an arithmetic overflow, an index out of range or a failed slice
+    conversion (the model has the semantics of the overflow-checked build; `OkOrFuel` adds the one outcome the Rust code
+    does not have: the model's rejection-sampling block budget FUEL = 1000 running out). -/
+theorem verify_total (p : Params) (hp : p ∈ allParams) (sig m pk : List Nat) (hpk : pk.length = p.pkBytes) (hb : ∀ b ∈ sig, b < 256) :
+    OkOrFuel (verify p sig m pk) (fun _ => True) :=
+  Complete.verify_total p hp sig m pk hpk hb
+
+open DV.Complete DV.SamplerTotal in
+/-- the ML-DSA entry point: any context (of any length), any signature bytes -/
+theorem mldsa_verify_total (p : Params) (hp : p ∈ allParams) (pk msg sig : List Nat) (ctx : Option (List Nat))
+    (hpk : pk.length = p.pkBytes) (hb : ∀ b ∈ sig, b < 256) :
+    OkOrFuel (mldsa_verify p pk msg sig ctx) (fun _ => True) := by
+  unfold mldsa_verify
+  split
+  · exact OkOrFuel.of_ok false rfl trivial
+  · split
+    · exact OkOrFuel.of_ok false rfl trivial
+    · exact Complete.verify_total p hp sig _ pk hpk hb
+
+open DV.Complete DV.SamplerTotal in
+/-- the Dilithium entry point -/
+theorem dil_verify_total (p : Params) (hp : p ∈ allParams) (pk msg sig : List Nat)
+    (hpk : pk.length = p.pkBytes) (hb : ∀ b ∈ sig, b < 256) :
+    OkOrFuel (dil_verify p pk msg sig) (fun _ => True) := by
+  unfold dil_verify
+  split
+  · exact OkOrFuel.of_ok false rfl trivial
+  · exact Complete.verify_total p hp sig msg pk hpk hb
 
 end DV.C08
